@@ -69,6 +69,16 @@ def f3_harnesses(tier):
             bound='wall normal %d; cell state, all 15 gradients, dx (either sign), A, dt, gamma symbolic; slope limiter = uninterpreted function with the two facts proved on the real code by F3_limit_odd and F3_limit_flat, Riemann solver = memoised nondeterministic function' % d))
     return H
 
+def f4_harnesses(tier):
+    H = []
+    for (nm, ent, what) in (('update_conserved', 'h_f4_update_conserved', 'HydroDensitySubGrid::update_conserved_variables on one cell: mass and total energy are >= 0 afterwards for ANY pending changes, gravity and energy terms (the positivity safeguard), every pending change and the energy term are reset to 0 (consumed exactly once)'),
+                            ('set_primitive', 'h_f4_set_primitive', 'Hydro::set_primitive_variables: density and pressure >= 0 for any conserved state (negative energy, momentum larger than the thermal budget, velocity and sound-speed limiters active or not); a cell without mass gets the vacuum state'),
+                            ('set_conserved', 'h_f4_set_conserved', 'Hydro::set_conserved_variables: mass and total energy >= 0 for any primitive state'),
+                            ('predict', 'h_f4_predict', 'Hydro::predict_primitive_variables: density and pressure stay >= 0 through the half-step prediction for any gradients and time step')):
+        H.append(BHarness('F4_' + nm, 'c04_hydro.cpp', ent, defs=['DIR=0', 'NMAXC=2'], strict=True, cflags=['-fopenmp'], timeout=900, stubs={'~_ZSt3maxIdERKT_S2_S2_': _minmax('max'), '~_ZSt3minIdERKT_S2_S2_': _minmax('min')},
+            what=what, bound='one cell, every field a symbolic finite double of either sign; gamma in (1,2]; IEEE-UF sign reasoning (overflow to inf/NaN is outside: finite domain)'))
+    return H
+
 SHAPES_Q = [(1, 1, 1), (2, 2, 2), (3, 2, 1), (1, 2, 3), (2, 3, 1)]
 SHAPES_T = SHAPES_Q + [(2, 1, 1), (1, 2, 1), (1, 1, 2), (3, 3, 3), (2, 1, 3), (1, 3, 2), (3, 1, 2)]
 def a_harnesses(tier):
@@ -90,7 +100,7 @@ def run(tier, only=None, pid='C04'):
     ev.outside += ['totals "up to round-off" over a whole grid, all layouts / thread counts (follows from F1+F2+C07 on paper)', 'positivity safeguards F4, ghost/reflective boundary F3, the 1.5 sound-speed wall clause, CFL']
     violations = []; broken = []
     try:
-        hb = [h for h in b_harnesses(tier) + (f3_harnesses(tier) if pid == 'C04' else []) if not only or h.name.startswith(only)]
+        hb = [h for h in b_harnesses(tier) + (f3_harnesses(tier) + f4_harnesses(tier) if pid == 'C04' else []) if not only or h.name.startswith(only)]
         v, b = run_engine_b(pid, tier, hb, ev, work); violations += v; broken += b
         ha = [h for h in a_harnesses(tier) if not only or h.name.startswith(only)]
         v, b = run_engine_a(pid, tier, ha, ev, work); violations += v; broken += b
